@@ -30,6 +30,13 @@ CLAIMED = {
             "(complete in the thorough tier).",
             "trusted: Coq kernel + vm_compute, Spec/EncTable.v, Model/Bitvec.v (hand model, differential), "
             "tools/translate tables"),
+    "C03": ("Coq theorems, one per pseudo-operation (SET SETRF MOVE CMP NEG NOT FLAGS CON COFF CBON CCBOFF HALT NOP "
+            "OPCODE, the label form of all fifteen register branches, CALL to a label): the expansion produced by "
+            "the model of convert() regenerated from hera/op.py, executed by the code model of C01, yields exactly "
+            "the documented whole-effect (Spec/PseudoSpec.v) on every well-formed state, every register operand, "
+            "every immediate / label value < 65536 and every flag setting; equality of whole states, except that "
+            "SET/SETRF to R15 are compared up to hera-py's stack-overflow warning bookkeeping.",
+            "trusted: as C01 plus Spec/PseudoSpec.v, Model/Bitvec.v (OPCODE)"),
 }
 
 checks = []
